@@ -17,6 +17,44 @@ class C02(ProgProp):
                    "code objects above the size cap are not iterated (xdis's iterator is quadratic); the cap is "
                    "2400 bytes in quick and 6000 in thorough"]
 
+    def fixed_cases(self, ctx):
+        for c in super().fixed_cases(ctx):
+            yield c
+        from vf.gen import asm as ga
+        # the same stream through the API object of an unlisted patch level of the version (3.10.17, 2.7.19 ...)
+        for v in self.versions:
+            pats = ga.jump_patterns(self.tables(ctx, v))
+            for patch in (17, 99):
+                if pats:
+                    yield {"k": "asm", "v": v, "items": pats[0], "patch": patch}
+
+    def judge(self, case, ctx):
+        res = super().judge(case, ctx)
+        if case.get("k") == "asm" and isinstance(case.get("patch"), int) and not res.reject and not res.failures:
+            from vf import refworker as rw
+            from vf import progdiff as pd
+            v = case["v"]
+            vt = pd.vt(v)
+            ref = self.reference(case, ctx)
+            x = rw.xd()
+            data = rw.unhx(ref["header"]) + rw.unhx(ref["payload"])
+            tup = rw.x_load_bytes(data)
+            co = tup[3]
+            base = [(i.offset, i.opname, i.arg) for i in x.bytecode.Bytecode(co, x.disasm.get_opcode(vt, False))]
+            vi = (vt[0], vt[1], case["patch"])
+            try:
+                api = x.std.make_std_api(vi, None)
+                got = [(i.offset, i.opname, i.arg) for i in api.get_instructions(co)]
+            except Exception as e:
+                res.fail("C02|patch-level-api|raised|%s" % type(e).__name__, "make_std_api(%r).get_instructions raised %s: %s" % (vi, type(e).__name__, e))
+                return res
+            if got != base:
+                k = next((j for j in range(min(len(got), len(base))) if got[j] != base[j]), min(len(got), len(base)))
+                res.fail("C02|patch-level-api|stream", "make_std_api(%r) decodes %s at row %d where the %s table gives %s" % (
+                    vi, got[k:k + 1], k, v, base[k:k + 1]))
+            res.classes.append("patch-level-api")
+        return res
+
     def classify(self, case, ref, x, c, res):
         keys = []
         for i, info in enumerate(c.codeinfo):
